@@ -2,7 +2,7 @@
    (Generated/LogicGen.v, re-generated on every run by harness/gen_logic.py): which component method is called, directly
    or through call_soon, under which condition on the entry.  A change of that control flow in /repo - an entry type
    dispatched elsewhere, a test moved before or behind another (finding F17 was one) - breaks these proofs. *)
-From PS Require Import Lib.Base Generated.Consts Model.SdTypes Model.Config Model.Session Model.Skel Generated.LogicGen Proofs.AListFacts Proofs.QueueProofs Proofs.C07Proofs
+From PS Require Import Lib.Base Generated.Consts Model.SdTypes Model.Config Model.Session Model.Skel Generated.LogicGen Proofs.AListFacts Proofs.QueueProofs Proofs.C07Proofs Model.Someip Model.SdCodec
   Model.StackTypes Model.Stack.
 
 (* the calls of the per-entry dispatch, over the model; None = a call the model does not know at this place *)
@@ -328,3 +328,74 @@ Theorem answer_find_is_the_translated_source i a w ins :
   answer_find i a w = fold_left (fun acc f => match f with FSendOffer => inst_send_offer i (Some a) false acc | _ => acc end)
                                 (gen_answer_find (in_can_answer ins)) w.
 Proof. intros H. unfold answer_find, gen_answer_find. rewrite H. destruct (in_can_answer ins); reflexivity. Qed.
+
+(* ------------------------------------------------------------------ message_received / reboot_detected / connection_lost *)
+Definition run_ract (a : addr) (w : world) (r : ract) : world :=
+  match r with
+  | RAnnouncerNow => announcer_reboot_detected a w
+  | RSoonSubscriberNoop => w            (* ServiceSubscriber.reboot_detected is `pass`: the model queues no handle for it *)
+  | RSoonDiscovery => call_soon (HRebootDisc a) w
+  | LSoonSubscriber => call_soon HConnLostSub w
+  | LSoonDiscovery => call_soon HConnLostDisc w
+  | LSoonAnnouncer => call_soon HConnLostAnn w
+  end.
+Theorem reboot_detected_is_the_translated_source a w : reboot_detected a w = fold_left (run_ract a) gen_reboot_detected w.
+Proof. reflexivity. Qed.
+Theorem connection_lost_is_the_translated_source w : connection_lost w = fold_left (run_ract 0) gen_connection_lost w.
+Proof. reflexivity. Qed.
+
+Definition run_mact (m : someip) (h : sdheader) (a : addr) (mc : bool) (w : world) (x : mact) : world :=
+  match x with
+  | MSession => set_sess (snd (check_received (sess w) a mc (sd_reboot h) (m_sess m))) w
+  | MReboot => reboot_detected a w
+  | MResolveDispatch => match resolve_sd h with Ok hr => sd_message_received hr a mc w | Err _ => w end
+  end.
+(* the session state is rewritten only AFTER the payload decoded; the reboot fan-out comes before the entries *)
+Theorem message_received_is_the_translated_source m a mc w :
+  message_received m a mc w
+  = match parse_sd (m_payload m) with
+    | Ok (h, _) =>
+        fold_left (run_mact m h a mc)
+          (gen_message_received (is_sd_message m) true (fst (check_received (sess w) a mc (sd_reboot h) (m_sess m)))) w
+    | Err _ => fold_left (run_mact m (mkSd [] [] false false 0) a mc) (gen_message_received (is_sd_message m) false false) w
+    end.
+Proof.
+  unfold message_received, gen_message_received. destruct (is_sd_message m); cbn [negb].
+  2:{ destruct (parse_sd (m_payload m)) as [[h r]|]; reflexivity. }
+  destruct (parse_sd (m_payload m)) as [[h r]|]; [|reflexivity]. cbn [negb].
+  destruct (check_received (sess w) a mc (sd_reboot h) (m_sess m)) as [rb s'] eqn:E. cbn [fst].
+  destruct rb; cbn [app fold_left run_mact]; rewrite E; reflexivity.
+Qed.
+
+(* ------------------------------------------------------------------ send_sd, start / stop *)
+Definition run_sdact (entries : list sdentry) (remote : dest) (s : world * (bool * N)) (x : sdact) : world * (bool * N) :=
+  let '(w, fi) := s in
+  match x with
+  | SAssignSession => let r := assign_outgoing (sess w) remote in
+                      (set_sess (snd r) (ghost (GSend entries remote (fst (fst r)) (snd (fst r))) w), fst r)
+  | SBuildSend => (match sd_datagram entries (fst fi) (snd fi) with
+                   | Ok b => emit (ESent remote b) w
+                   | Err e => emit (ERaised (err_code e)) w
+                   end, fi)
+  end.
+Theorem send_sd_is_the_translated_source entries remote w :
+  send_sd entries remote w
+  = fst (fold_left (run_sdact entries remote) (gen_send_sd (match entries with [] => true | _ => false end)) (w, (false, 0))).
+Proof.
+  unfold send_sd, gen_send_sd. destruct entries as [|e es]; [reflexivity|].
+  cbn [fold_left run_sdact]. destruct (assign_outgoing (sess w) remote) as [[f i] s']. reflexivity.
+Qed.
+Theorem sd_datagram_is_the_translated_source entries flag sid :
+  sd_datagram entries flag sid
+  = (do a <- assign_sd (mkSd entries [] flag gen_sd_flag_unicast 0);
+     do p <- build_sd a;
+     build_msg (mkMsg SD_SERVICE SD_METHOD gen_sd_client_id sid gen_sd_interface_version MT_NOTIFICATION 1 RC_E_OK p)).
+Proof. reflexivity. Qed.
+Definition run_pact (start : bool) (w : world) (x : pact) : world :=
+  match x, start with
+  | PSubscriber, true => subscriber_start w | PAnnouncer, true => announcer_start w | PDiscovery, true => discovery_start w
+  | PSubscriber, false => subscriber_stop true w | PAnnouncer, false => announcer_stop w | PDiscovery, false => discovery_stop w
+  end.
+Theorem proto_start_stop_are_the_translated_source w :
+  proto_start w = fold_left (run_pact true) gen_proto_start w /\ proto_stop w = fold_left (run_pact false) gen_proto_stop w.
+Proof. split; reflexivity. Qed.
